@@ -95,11 +95,22 @@ def gen_c16(seed, policy=None):
         others = [s["sid"] for s in sims if s["sid"] not in ("Sa", who)]
         if others:
             illegal.append({"sid": who, "k": rng.randint(1, 2), "f": rng.choice(["set_data", "get_data"]), "target": rng.choice(others)})
+            if illegal[-1]["f"] == "set_data" and rng.random() < 0.6:
+                illegal[-1]["mixed"] = rng.choice(["legal_first", "legal_first", "illegal_first"])
     ratios = rng.choice([(1, 1), (1, 2), (2, 1), (1, 3), (3, 1)])
     scn = S.normalize({"sims": sims, "conns": conns, "until": rng.randint(3, 5), "lazy": rng.random() < 0.5, "cache": rng.random() < 0.5})
     beh = {"kind": "agent", "agents": agents, "illegal": illegal,
            "tb_next": [ratios[0]] if rng.random() < 0.7 else [1, 2], "ev_next": [None, ratios[1], ratios[1]]}
-    if rng.random() < 0.25:
+    clash = [i_ for i_ in illegal if i_.get("mixed") and i_["target"] in ("Sd", "Se")]
+    if clash and rng.random() < 0.6:
+        # the forbidden simulator is NAMED like the entity of the controlled simulator that the same call addresses (ids live in
+        # separate name spaces: simulator "E0" next to entity "Sa.E0", as a simulator "Storage" next to an entity "Grid.Storage")
+        new = agents[clash[0]["sid"]].get("eid", "E0")
+        rn = {clash[0]["target"]: new}
+        scn = S.rename_sids(scn, rn)
+        illegal = [dict(i_, target=rn.get(i_["target"], i_["target"])) for i_ in illegal]
+        beh = dict(beh, illegal=illegal)
+    elif rng.random() < 0.25:
         # simulator ids of which one is a PREFIX of another (as mosaik's own ids X-1 / X-10, or Grid / Grid2), shorter one started first
         scn = S.rename_sids(scn, {"Sa": "G", "Sf": "G2", "Sb": "G-1", "Sc": "G-10", "Sd": "G-2", "Se": "G20"})
         agents = {{"Sb": "G-1", "Sc": "G-10"}.get(k, k): dict(v, target="G", **({"multi": dict(v["multi"], targets=["G", "G2"])} if v.get("multi") else {}))
